@@ -279,11 +279,66 @@ def probe(v):
     return v
 
 
+def _nodes(t, path=()):
+    yield path, t
+    if isinstance(t, tuple) and t and t[0] in ("bin", "un", "par", "call"):
+        if t[0] == "bin":
+            yield from _nodes(t[2], path + (2,))
+            yield from _nodes(t[3], path + (3,))
+        elif t[0] == "un":
+            yield from _nodes(t[2], path + (2,))
+        elif t[0] == "par":
+            yield from _nodes(t[1], path + (1,))
+        else:
+            for i, a in enumerate(t[2]):
+                yield from _nodes(a, path + (2, i))
+            for i, kw in enumerate(t[3]):
+                yield from _nodes(kw[1], path + (3, i, 1))
+
+
+def _replace(t, path, new):
+    if not path:
+        return new
+    lst = list(t)
+    lst[path[0]] = _replace(t[path[0]], path[1:], new)
+    return tuple(lst)
+
+
+@st.composite
+def near_copy(draw, t):
+    """The same call with one detail changed: operands swapped, another operator, another literal, another keyword
+    value.  Two such calls are different calls and must be two terms."""
+    nodes = list(_nodes(t))
+    path, node = nodes[draw(st.integers(0, len(nodes) - 1))]
+    k = node[0] if isinstance(node, tuple) and node else None
+    if k == "bin":
+        how = draw(st.sampled_from(["swap", "op"]))
+        if how == "swap":
+            new = ("bin", node[1], node[3], node[2])
+        else:
+            pool = CMP if node[1] in CMP else ["+", "-", "*", "/"]
+            new = ("bin", draw(st.sampled_from([o for o in pool if o != node[1]])), node[2], node[3])
+    elif k == "num":
+        new = ("num", draw(st.sampled_from([n for n in NUMS if n != node[1]])))
+    elif k == "col":
+        new = ("col", draw(st.sampled_from([c for c in ("x", "z", "w") if c != node[1]])))
+    elif k == "str":
+        new = ("str", draw(st.sampled_from([x for x in STRINGS if x != node[1]])))
+    elif k == "py":
+        new = ("py", draw(st.sampled_from([x for x in ("True", "False", "None") if x != node[1]])))
+    elif k == "un":
+        new = node[2]
+    else:
+        new = ("bin", "+", node, ("num", "1"))
+    return _replace(t, path, new)
+
+
 @st.composite
 def case_strategy(draw):
     t = draw(st.one_of(TREE, TREE, chain()))
-    return {"tree": t, "layout_seed": draw(st.integers(0, 2**20)), "wrapper": draw(st.sampled_from(["probe", "I", "brace"])),
-            "other": draw(st.one_of(st.none(), TREE))}
+    other = draw(st.sampled_from(["none", "independent", "near", "near"]))
+    o = None if other == "none" else (draw(TREE) if other == "independent" else draw(near_copy(t)))
+    return {"tree": t, "layout_seed": draw(st.integers(0, 2**20)), "wrapper": draw(st.sampled_from(["probe", "I", "brace"])), "other": o}
 
 
 def _tup(x):
